@@ -15,31 +15,16 @@ pub open spec fn operator_sem(o: Operator) -> int {
 //@TYPE file=ast.rs name=BlockStmt
 //@TYPE file=ast.rs name=Expr
 
-//@TYPE file=symbols.rs name=Scope attrs="#[derive(PartialEq, Eq, Structural, Copy, Clone)]"
-//@TYPE file=symbols.rs name=Symbol
-
-/// the symbol table is opaque here; its own contracts are the C09 obligations (Kani, bounded) on src/symbols.rs
-#[verifier::external_body]
-pub struct SymbolTable { _p: usize }
-pub uninterp spec fn sym_resolve(t: SymbolTable, name: Seq<char>) -> Option<Symbol>;
-pub uninterp spec fn sym_in_function(t: SymbolTable) -> bool;
+//@INCLUDE symbols_spec.rs
 impl SymbolTable {
-    // PROVED-BY: C09 obligations (resolve does not modify the table)
-    #[verifier::external_body]
-    pub fn resolve(&mut self, name: &str) -> (r: Option<Symbol>)
-        ensures r == sym_resolve(*old(self), name@), *final(self) == *old(self)
-    { unimplemented!() }
-    #[verifier::external_body]
-    pub fn in_function(&self) -> (r: bool) ensures r == sym_in_function(*self) { unimplemented!() }
-    // PROVED-BY: unit c09_names (wrapper) - the per-context part is not decided
-    #[verifier::external_body]
-    pub fn define(&mut self, name: &str) -> (r: Result<Symbol, Error>)
-        ensures r is Ok ==> r->Ok_0 == sym_define_symbol(*old(self), name@) && *final(self) == sym_after_define(*old(self), name@)
-                    && sym_params(*final(self)) == sym_params(*old(self)).push(name@),
-                // a context that is full (O05.sym) refuses the declaration and stays as it was
-                r is Err ==> *final(self) == *old(self),
-                sym_depth(*final(self)) == sym_depth(*old(self)), sym_contexts(*final(self)) == sym_contexts(*old(self)), sym_outer(*final(self)) == sym_outer(*old(self)),
-    { unimplemented!() }
+//@ASSUMES unit=c09_names.rs after="impl SymbolTable {" fn=resolve full=1
+//@ASSUMES unit=c09_names.rs after="impl SymbolTable {" fn=in_function full=1
+//@ASSUMES unit=c09_names.rs after="impl SymbolTable {" fn=define full=1
+//@ASSUMES unit=c09_names.rs after="impl SymbolTable {" fn=enter_scope full=1
+//@ASSUMES unit=c09_names.rs after="impl SymbolTable {" fn=leave_scope full=1
+//@ASSUMES unit=c09_names.rs after="impl SymbolTable {" fn=new_context full=1
+//@ASSUMES unit=c09_names.rs after="impl SymbolTable {" fn=leave_context full=1
+//@ASSUMES unit=c09_names.rs after="impl SymbolTable {" fn=reset_to_global full=1
 }
 pub struct Builtin { pub byte: u8 }
 pub uninterp spec fn builtin_of_name(name: Seq<char>) -> Option<u8>;
@@ -56,35 +41,6 @@ pub mod builtins {
 #[verifier::external_body]
 pub fn mem_take_vec<T>(v: &mut Vec<T>) -> (r: Vec<T>) ensures r@ == old(v)@, final(v)@.len() == 0 { std::mem::take(v) }
 
-pub uninterp spec fn sym_reset(t: SymbolTable) -> SymbolTable;
-/// ghost measures of the (opaque) symbol table: how many block scopes are open in the current context, how many
-/// function contexts are open. NOT DECIDED for Context internals; the wrappers are unit c09_names.
-pub uninterp spec fn sym_depth(t: SymbolTable) -> int;
-pub uninterp spec fn sym_contexts(t: SymbolTable) -> int;
-/// block-scope depths of the ENCLOSING contexts (outermost first): what leave_context returns to. PROVED-BY unit c09_names:
-/// new_context pushes one context on top and leave_context drops exactly that one, everything below untouched.
-pub uninterp spec fn sym_outer(t: SymbolTable) -> Seq<int>;
-pub uninterp spec fn sym_params(t: SymbolTable) -> Seq<Seq<char>>;   // names declared in the current context since it was opened
-pub uninterp spec fn sym_max_size(t: SymbolTable) -> usize;
-impl SymbolTable {
-    #[verifier::external_body]
-    pub fn enter_scope(&mut self) ensures sym_depth(*final(self)) == sym_depth(*old(self)) + 1, sym_contexts(*final(self)) == sym_contexts(*old(self)), sym_outer(*final(self)) == sym_outer(*old(self)) { unimplemented!() }
-    #[verifier::external_body]
-    pub fn leave_scope(&mut self) ensures sym_depth(*final(self)) == sym_depth(*old(self)) - 1, sym_contexts(*final(self)) == sym_contexts(*old(self)), sym_outer(*final(self)) == sym_outer(*old(self)) { unimplemented!() }
-    #[verifier::external_body]
-    pub fn new_context(&mut self) ensures sym_contexts(*final(self)) == sym_contexts(*old(self)) + 1, sym_depth(*final(self)) == 0, sym_params(*final(self)) == Seq::<Seq<char>>::empty(), sym_outer(*final(self)) == sym_outer(*old(self)).push(sym_depth(*old(self))) { unimplemented!() }
-    #[verifier::external_body]
-    pub fn leave_context(&mut self) -> (n: usize) ensures sym_contexts(*final(self)) == sym_contexts(*old(self)) - 1, n == sym_max_size(*old(self)),
-        sym_outer(*old(self)).len() > 0 ==> sym_depth(*final(self)) == sym_outer(*old(self)).last() && sym_outer(*final(self)) == sym_outer(*old(self)).drop_last() { unimplemented!() }
-}
-impl SymbolTable {
-    // NOT DECIDED (src/symbols.rs Context internals): truncates to the global context's outermost scope
-    #[verifier::external_body]
-    pub fn reset_to_global(&mut self) ensures *final(self) == sym_reset(*old(self)) { unimplemented!() }
-}
-pub uninterp spec fn sym_define_symbol(t: SymbolTable, name: Seq<char>) -> Symbol;
-pub uninterp spec fn sym_after_define(t: SymbolTable, name: Seq<char>) -> SymbolTable;
-
 /// `a == b` under Object's PartialEq with equal tags (the test add_constant uses to re-use a slot)
 pub uninterp spec fn pool_equal(a: Object, b: Object) -> bool;
 //@TYPE file=compiler.rs name=LoopContext
@@ -100,7 +56,7 @@ pub open spec fn entry_s(st: Stmt, pre: Compiler, post: Compiler) -> LogEntry { 
 //@TYPE file=compiler.rs name=Compiler extra="pub log: Ghost<Seq<LogEntry>>,"
 
 /// state invariant of code generation (requires AND ensures of every generator): the peephole invariant
-pub open spec fn gen_inv(c: Compiler) -> bool { peephole_inv(c) }
+pub open spec fn gen_inv(c: Compiler) -> bool { peephole_inv(c) && sym_wf(c.symbols) }
 
 /// the pending-`stop` list of loop context i, as positions
 pub open spec fn breaks(c: Compiler, i: int) -> Seq<usize> { c.loop_contexts@[i].break_instructions@ }
@@ -240,6 +196,7 @@ impl Compiler {
         ensures
             r is Ok ==> final(self).log@ == old(self).log@.push(entry_e(*expr, *old(self), *final(self))),
             r is Ok ==> gen_post(*old(self), *final(self), true),
+            sym_wf(final(self).symbols),   // also when the generator fails: compile_ast resets the table afterwards
     { unimplemented!() }
     #[verifier::external_body]
     fn compile_statement(&mut self, stmt: &Stmt) -> (r: Result<(), Error>)
@@ -247,6 +204,7 @@ impl Compiler {
         ensures
             r is Ok ==> final(self).log@ == old(self).log@.push(entry_s(*stmt, *old(self), *final(self))),
             r is Ok ==> gen_post(*old(self), *final(self), true),
+            sym_wf(final(self).symbols),   // also when the generator fails: compile_ast resets the table afterwards
     { unimplemented!() }
     // block_post: PROVED-BY unit c02_blocks (verbatim body). gen_post: induction hypothesis (assumed).
     #[verifier::external_body]
@@ -255,6 +213,7 @@ impl Compiler {
         ensures
             block_post(*old(self), *final(self), stmts@, r is Ok),
             r is Ok ==> gen_post(*old(self), *final(self), true),
+            sym_wf(final(self).symbols),   // also when the generator fails: compile_ast resets the table afterwards
     { unimplemented!() }
 }
 
